@@ -39,9 +39,14 @@ def link_result_files(jobpath: Path, old_name: str, new_name: str):
     """The result files of a job (`.done`, ...) are named after the task: when the
     task itself has been renamed, make them visible under the new name"""
     if old_name != new_name:
-        for suffix in ("done", "failed", "out", "err"):
+        for suffix in ("done", "failed", "pid", "lock", "out", "err"):
             newpath = jobpath / f"{new_name}.{suffix}"
-            if (jobpath / f"{old_name}.{suffix}").exists() and not (
+            # The markers, the pid file and the lock are aliased even when they
+            # do not exist (yet): the job might be running under its former
+            # name, and must be seen (adopted, not launched again) and have
+            # its results found under the new one
+            always = suffix in ("done", "failed", "pid", "lock")
+            if (always or (jobpath / f"{old_name}.{suffix}").exists()) and not (
                 newpath.exists() or newpath.is_symlink()
             ):
                 newpath.symlink_to(f"{old_name}.{suffix}")
